@@ -722,6 +722,60 @@ Proof.
     try reflexivity; try lia; exfalso; lia.
 Qed.
 
+Lemma resolve_last sp wlo n : 1 <= sp <= n -> resolve_wl SLast sp wlo n = Ok sp.
+Proof.
+  intro H. unfold resolve_wl. destruct (sp =? 1) eqn:E1.
+  - destruct (n <? 1) eqn:E; [lia|f_equal; lia].
+  - destruct (sp <? 1) eqn:E2; [lia|]. destruct (n <? sp) eqn:E3; [lia|reflexivity].
+Qed.
+
+(* what an accepted configuration guarantees about the resolved window *)
+Lemma resolve_ok_bounds s sp wlo n w : 1 <= n -> resolve_wl s sp wlo n = Ok w ->
+  1 <= w <= n /\ match s with
+                 | SLast => 1 <= sp /\ w = sp
+                 | SMean => 1 <= sp /\ (sp = 1 \/ sp <= w)
+                 | SDrift => 2 <= w
+                 end.
+Proof.
+  intros Hn H. apply resolve_ok in H. destruct H as [Hw [Hle [Hv Hr]]].
+  unfold documented_wl, valid_params, wl_ok, documented_reject in *.
+  destruct s; destruct wlo as [x|]; cbn [documented_wl] in *; split_ifs; lia.
+Qed.
+
+(* ---- in-sample forecasts of the fitted forecaster ------------------------------------------------------ *)
+
+Lemma naive_in_sample_last ys sp wlo r q : 1 <= sp <= zlen ys -> r <= 0 ->
+  q = zlen ys - 1 + r -> 0 <= q ->
+  naive_predict SLast sp wlo ys [r] = Ok [if q <? sp then None else znth ys (q - sp)].
+Proof.
+  intros Hsp Hr Eq Hq. unfold naive_predict. rewrite resolve_last by exact Hsp.
+  apply in_sample_last; try assumption; lia.
+Qed.
+
+Lemma naive_in_sample_mean ys sp wlo wl r q lo :
+  resolve_wl SMean sp wlo (zlen ys) = Ok wl -> r <= 0 ->
+  q = zlen ys - 1 + r -> 0 <= q -> lo = Z.max 0 (q - wl) ->
+  naive_predict SMean sp wlo ys [r] =
+  Ok [nanmean (sel (fun p => congb sp p q) lo (zslice ys lo q))].
+Proof.
+  intros Hres Hr Eq Hq Elo. unfold naive_predict. rewrite Hres.
+  apply resolve_ok_bounds in Hres; [|lia]. destruct Hres as [Hwl [Hsp _]].
+  apply in_sample_mean; try assumption; lia.
+Qed.
+
+Lemma naive_in_sample_drift ys sp wlo wl r q lo :
+  resolve_wl SDrift sp wlo (zlen ys) = Ok wl -> r <= 0 ->
+  q = zlen ys - 1 + r -> 0 <= q -> lo = Z.max 0 (q - wl) ->
+  (q - lo <= 1 -> naive_predict SDrift sp wlo ys [r] = Ok [None]) /\
+  (forall a b, 2 <= q - lo -> znth ys lo = Some a -> znth ys (q - 1) = Some b ->
+     naive_predict SDrift sp wlo ys [r] = Ok [Some (drift_value (q - lo) a b 1)] /\
+     (drift_value (q - lo) a b 1 == line lo (q - 1) a b q)%Q).
+Proof.
+  intros Hres Hr Eq Hq Elo. unfold naive_predict. rewrite Hres.
+  apply resolve_ok_bounds in Hres; [|lia]. destruct Hres as [Hwl _].
+  apply in_sample_drift; try assumption; lia.
+Qed.
+
 (* ---- the property statements -------------------------------------------------------------------------- *)
 
 Lemma map_nonempty_match {A B} (f : A -> B) (l : list A) (r : res (list B)) :
